@@ -5,6 +5,7 @@ import Gozod.Model.Prim
 import Gozod.Model.NumChecks
 import Gozod.Proofs.C10
 import Gozod.Proofs.C16
+import Gozod.Proofs.FloatMulRound
 
 namespace Gozod.C01
 open Gozod Gozod.Prim
@@ -98,7 +99,7 @@ theorem c01_num_holds_spec (p : NPred) (v : Num) (hv : C16.Num.wf v)
           | .mult d => C16.Num.wf d ∧ C16.isInt d = true ∧ C16.isInt v = true
           | .finite => True
           | .safe => True
-          | .multF d => ∀ x, v = .f x → FloatMul.implMultF x d = FloatMul.specMultF x d  -- TODO-ROUND
+          | .multF d => FloatMul.F.rep d ∧ ∀ x, v = .f x → FloatMul.F.rep x   -- operands are binary64 values (`ofBits_rep`)
           | .isInt => True) :
     holds p v = specHolds p v := by
   cases p with
@@ -117,12 +118,63 @@ theorem c01_num_holds_spec (p : NPred) (v : Num) (hv : C16.Num.wf v)
     simp only [holds, specHolds, C16.c16_cmp _ v _ hv wlo, C16.c16_cmp _ v _ hv whi]
   | multF d =>
     cases v with
-    | f x => simp only [holds, specHolds]; exact hp x rfl
+    | f x => simp only [holds, specHolds]; exact FloatMul.implMultF_eq_specMultF x d (hp.2 x rfl) hp.1
     | _ => rfl
   | isInt =>
     cases v with
     | f x => simp only [holds, specHolds]; exact isIntF_eq_spec x
     | _ => rfl
+
+/-! ### Float checks: the check holds iff the documented relation holds, for every binary64 input
+    (finite, NaN, ±Inf, −0 — `F.ofBits` decodes every bit pattern) -/
+
+open NumChecks FloatMul in
+/-- **Float `MultipleOf` / `Step`.** For every pair of binary64 bit patterns the check evaluates to the
+    documented ε-relation on the exact remainder and the exact difference: the rounded subtraction in
+    the code never changes the verdict. -/
+theorem c01_float_multipleOf (vb db : Nat) :
+    holds (.multF (F.ofBits db)) (.f (F.ofBits vb)) = specMultF (F.ofBits vb) (F.ofBits db) := by
+  simp only [holds]
+  exact implMultF_eq_specMultF _ _ (ofBits_rep vb) (ofBits_rep db)
+
+open NumChecks in
+/-- **Float comparisons** (`Gt/Gte/Lt/Lte/Min/Max/Positive/Negative/NonNegative/NonPositive`): the
+    mathematical order on the extended reals, false when a NaN is involved — every input, every bound. -/
+theorem c01_float_cmp (op : CmpOp) (x b : F) :
+    holds (.cmp op (.f b)) (.f x) = (match F.cmp x b with | none => false | some o => op.ofOrdering o) := by
+  simp only [holds, implCmp, cmpNum]
+  cases F.cmp x b <;> rfl
+
+open NumChecks in
+/-- A NaN input fails every comparison check, whatever the bound. -/
+theorem c01_float_nan_rejected (op : CmpOp) (b : Num) : holds (.cmp op b) (.f .nan) = false := by
+  cases b <;> simp [holds, implCmp, cmpNum, F.cmp, cmpIntFloat]
+
+open NumChecks in
+/-- **`Finite`** holds exactly on the finite values. -/
+theorem c01_float_finite_iff (x : F) : holds .finite (.f x) = true ↔ ∃ a k, x = .fin a k := by
+  cases x <;> simp [holds, isFinite]
+
+open NumChecks in
+/-- **`Safe`** on a float: −(2^53−1) ≤ x ≤ 2^53−1 in the mathematical order; NaN and ±Inf fail. -/
+theorem c01_float_safe_iff (x : F) :
+    holds .safe (.f x) = true ↔
+      F.cmp x (F.ofInt (-(2 ^ 53 - 1))) ∈ [some .gt, some .eq] ∧ F.cmp x (F.ofInt (2 ^ 53 - 1)) ∈ [some .lt, some .eq] := by
+  simp only [holds, safeBound, implCmp, cmpNum, Bool.and_eq_true]
+  cases h1 : F.cmp x (F.ofInt (-(2 ^ 53 - 1))) with
+  | none => simp
+  | some o1 =>
+    cases h2 : F.cmp x (F.ofInt (2 ^ 53 - 1)) with
+    | none => simp
+    | some o2 => cases o1 <;> cases o2 <;> simp [CmpOp.ofOrdering]
+
+open NumChecks FloatMul in
+/-- **`Int`** on a float holds exactly when the value has no fractional part. -/
+theorem c01_float_int (x : F) : holds .isInt (.f x) = specIsIntF x := by
+  simp only [holds]; exact isIntF_eq_spec x
+
+example : NumChecks.holds (.multF (F.ofBits 0x3FB999999999999A)) (.f (F.ofBits 0x3FD3333333333333)) = true := by
+  decide +kernel   -- 0.3 is a multiple of 0.1 under the ε-rule (math.Mod gives 0.09999999999999998)
 
 /-! ### Enum / Literal: membership with Go's interface equality (type and value) -/
 
